@@ -727,8 +727,12 @@ class UnionUnmarshaller(AbstractUnmarshaller[UnionT], tp.Generic[UnionT]):
         """
         super().__init__(t, context, var=var)
         self.stack = inspection.args(t, evaluate=True)
+        # Always try `None` first, wherever it was declared; keep the declared
+        #   order of all other members.
         if inspection.isoptionaltype(t):
-            self.stack = (self.stack[-1], *self.stack[:-1])
+            nulls = (*(a for a in self.stack if inspection.isnonetype(a)),)
+            rest = (*(a for a in self.stack if not inspection.isnonetype(a)),)
+            self.stack = (*nulls, *rest)
 
         self.ordered_routines = [self.context[typ] for typ in self.stack]
 
